@@ -42,9 +42,9 @@ Arguments ts_Ku {_ _ _} _. Arguments ts_Xg0 {_ _ _} _. Arguments ts_Xg1 {_ _ _} 
 Definition solve_transition {nb nf ne}
     (S T Q : mx O (nb + nf) (nb + nf)) (Z : mx O (nf + nb) (nb + nf))
     (C : mx O (nb + nf) 1) (D : mx O (nb + nf) ne) : transition_solution nb nf ne :=
-  let S11 := usub (lsub S) in let S12 := usub (rsub S) in let S22 := dsub (rsub S) in
-  let T11 := usub (lsub T) in let T12 := usub (rsub T) in let T22 := dsub (rsub T) in
-  let Z21 := dsub (lsub Z) in let Z22 := dsub (rsub Z) in
+  let S11 := lsub (usub S) in let S12 := rsub (usub S) in let S22 := rsub (dsub S) in
+  let T11 := lsub (usub T) in let T12 := rsub (usub T) in let T22 := rsub (dsub T) in
+  let Z21 := lsub (dsub Z) in let Z22 := rsub (dsub Z) in
   let Q_CC := Q |*| C in let Q_CC1 := usub Q_CC in let Q_CC2 := dsub Q_CC in
   let Q_DD := Q |*| D in let Q_DD1 := usub Q_DD in let Q_DD2 := dsub Q_DD in
   let G := left_div (|-| Z21) Z22 in
